@@ -35,7 +35,10 @@ EXPLANATION = (
     'applies (the dedent helper must be a suffix removal also for an empty indentation unit); R4 in run() the check-mode status is '
     'set iff the text read differs from the text that would be written, every sink receives the formatter output unchanged, and the '
     'loop over the sources stops early only after a difference was recorded; R5 no path sorts an argument list and then replaces it '
-    '(the installed files() arguments would stay unsorted until the next run). '
+    '(the installed files() arguments would stay unsorted until the next run); R6 the printer emits the undecoded token text of a plain '
+    'literal; R7 every option of the configuration tables is read with the getter of its declared type and has a default of that type. '
+    'R2 also requires that a visit performing one of the two literal simplifications has consulted the flag of the other one '
+    '(otherwise a literal qualifying for both needs two runs). '
     'Guards are decided as branch atoms in the world a counter-hypothesis describes (a representative of the input class is used only '
     'to give the atoms of a guard a truth value; no statement sequence or method body is interpreted, values computed by the code are '
     'never propagated). Does NOT decide: idempotence, the five-round fixpoint, line-splitting layout, newline translation of '
@@ -375,11 +378,13 @@ def _fresh_comma(ctx: RuleCtx, p: Pass, vals: T.Set[str]) -> str:
         bad = [v for v in vs if v not in ('fresh', 'unknown')]
         return bad[0] if bad else ('unknown' if 'unknown' in vs else 'fresh')
     if _is_access_path(norm(e)):
-        return 'an existing node of the tree is inserted a second time'
+        return 'an existing node of the tree is inserted a second time' if isinstance(e, (ast.Attribute, ast.Subscript)) else 'unknown'
     if not (isinstance(e, ast.Call) and (attr_chain(e.func) or '').split('.')[-1] == 'SymbolNode'):
         return 'unknown'
     mp = ctx.repo.module(MP)
     tokarg = e.args[0] if e.args else next((k.value for k in e.keywords if k.arg == 'token'), None)
+    if isinstance(tokarg, ast.Call) and (attr_chain(tokarg.func) or '').split('.')[-1] != 'Token':
+        tokarg = _Inline(ctx, p).resolve(tokarg) or tokarg       # the token is built by a module helper
     if not (isinstance(tokarg, ast.Call) and (attr_chain(tokarg.func) or '').split('.')[-1] == 'Token'):
         return 'unknown'
     fields = [st.target.id for st in mp.cls('Token').body if isinstance(st, ast.AnnAssign) and isinstance(st.target, ast.Name)]
@@ -521,6 +526,8 @@ def _trailing_atoms(x: str, present: bool) -> T.Callable[[ast.AST], T.Any]:
     from .c16_sym import UNKNOWN
     lc = f'len({x}.commas)'
     sums = {f'len({x}.arguments) + len({x}.kwargs)', f'len({x}.kwargs) + len({x}.arguments)'}
+    if _LEN_IS_SUM:
+        sums.add(f'len({x})')            # ArgumentNode.__len__ is the number of positional plus keyword arguments (read from mparser.py)
 
     def atoms(e: ast.AST) -> T.Any:
         if isinstance(e, ast.Compare) and len(e.ops) == 1:
@@ -535,8 +542,37 @@ def _trailing_atoms(x: str, present: bool) -> T.Callable[[ast.AST], T.Any]:
                 return True
         if present and norm(e) in (f'{x}.commas', f'bool({x}.commas)', lc):
             return True
+        if present and _LEN_IS_SUM and norm(e) in (x, f'bool({x})', f'len({x})'):
+            return True                  # every world with a trailing comma has at least one argument
         return UNKNOWN
     return atoms
+
+
+_LEN_IS_SUM = False
+
+
+def _read_argnode_len(ctx: RuleCtx) -> None:
+    """Does len(<ArgumentNode>) denote len(arguments) + len(kwargs)?  Read from ArgumentNode.__len__ and the helpers it calls."""
+    global _LEN_IS_SUM
+    from .c16_sym import helper_expression
+    mp = ctx.repo.module(MP)
+    _LEN_IS_SUM = False
+    if not mp.has_func('ArgumentNode.__len__'):
+        return
+
+    def expand(e: ast.AST, depth: int = 0) -> ast.AST:
+        class _T(ast.NodeTransformer):
+            def visit_Call(self, c: ast.Call) -> ast.AST:
+                c = T.cast(ast.Call, self.generic_visit(c))
+                if isinstance(c.func, ast.Attribute) and attr_chain(c.func.value) == 'self' and not c.args and depth < 3 and mp.has_func(f'ArgumentNode.{c.func.attr}'):
+                    he = helper_expression(mp.func(f'ArgumentNode.{c.func.attr}'))
+                    if he is not None:
+                        return expand(he, depth + 1)
+                return c
+        return _T().visit(copy.deepcopy(e))
+    he = helper_expression(mp.func('ArgumentNode.__len__'))
+    if he is not None:
+        _LEN_IS_SUM = norm(expand(he)) in ('len(self.arguments) + len(self.kwargs)', 'len(self.kwargs) + len(self.arguments)')
 
 
 def trailing_hyps(x: str, present: bool) -> T.List[Hyp]:
@@ -550,6 +586,7 @@ def trailing_hyps(x: str, present: bool) -> T.List[Hyp]:
 
 
 def r1(ctx: RuleCtx) -> None:
+    _read_argnode_len(ctx)
     model = NodeModel(ctx.repo)
     passes = _passes(ctx)
     ctx.floor('formatter pass classes', len(passes), 3)
@@ -711,10 +748,14 @@ def _lexer_flagged_chars(ctx: RuleCtx) -> T.List[str]:
         return False
     for n in ast.walk(fn):
         if isinstance(n, ast.If) and mentions_string_tid(n.test):
+            lb: T.Dict[str, ast.AST] = {}          # locals of the branch, by their (last) definition before the test
             for m in n.body:
+                if isinstance(m, ast.Assign) and len(m.targets) == 1 and isinstance(m.targets[0], ast.Name):
+                    lb[m.targets[0].id] = subst(m.value, lb)
                 for i in ast.walk(m):
                     if not isinstance(i, ast.If):
                         continue
+                    i = ast.If(test=subst(i.test, lb), body=i.body, orelse=i.orelse)
                     diag = any(isinstance(c, ast.Raise) or (isinstance(c, ast.Call) and (call_name(c) or '').split('.')[-1] in ('warning', 'deprecation', 'error'))
                                for s in i.body for c in ast.walk(s))
                     if not diag:
@@ -827,6 +868,7 @@ def r2(ctx: RuleCtx) -> None:
     if fw is None:
         raise Undecided(f'no witness for the f-string substitution regex {fre!r}')
     n_ml = n_fs = 0
+    both: T.Dict[T.Tuple[int, str], T.List[T.Any]] = {}
     for p in _passes(ctx):
         _Inline(ctx, p).use()
         for mname, fn in _methods(p).items():
@@ -845,6 +887,7 @@ def r2(ctx: RuleCtx) -> None:
                     raise Undecided(f'{qn}: {short(w.stmt)} turns a literal into the multiline/f-string form; only simplification is understood')
                 if w.attr == 'is_multiline':
                     n_ml += 1
+                    both.setdefault((id(fn), x), [p, qn, fn, None, None])[3] = w.stmt
                     for c in chars:
                         bad: T.List[T.Tuple[Hazard, Reach]] = []
                         for h in [h for h in hz if h.char == c]:
@@ -867,6 +910,7 @@ def r2(ctx: RuleCtx) -> None:
                         ctx.note(f'{qn}: the rewrite is not reachable for the harmless value abc')
                 else:
                     n_fs += 1
+                    both.setdefault((id(fn), x), [p, qn, fn, None, None])[4] = w.stmt
                     # input classes: a plain f-string, and a triple-quoted one that stays triple-quoted (it also holds a
                     # hazard character).  A triple-quoted f-string simplified in the same visit has its value re-derived
                     # by escape() before the test: that class is not decided.
@@ -886,6 +930,26 @@ def r2(ctx: RuleCtx) -> None:
                     ctx.require(not rs, f'{qn}: f-string->plain rewrite unreachable for a value with a substitution ({fw!r}, from {fre!r})', p.mod, qn,
                                 f'{norm(w.stmt)}  [value containing a substitution]',
                                 f"f'a{fw}b' loses its f prefix although {fw!r} is a substitution for the interpreter ({fre!r})" + (f'; path: {rs[0].describe()}' if rs else ''), w.stmt)
+    # the two simplifications of one literal are independent: a visit that performs one of them must also have looked at the
+    # flag of the other one (otherwise a literal that qualifies for both needs two runs: formatting twice differs)
+    from .c16_sym import fn_paths
+    for (_, x), (p, qn, fn, s_ml, s_fs) in both.items():
+        if s_ml is None or s_fs is None:
+            continue
+        for done, flag, what in ((s_ml, f'{x}.is_fstring', 'the triple-quoted -> plain rewrite'), (s_fs, f'{x}.is_multiline', 'the f-prefix removal')):
+            bad_path = None
+            for path in fn_paths(fn, 1):
+                if not any(e.node is done for e in path.events) or path.outcome not in ('fall', 'return'):
+                    continue
+                reads = any(e.node is not None and e.node is not done and any(isinstance(n, ast.Attribute) and norm(n) == flag and isinstance(n.ctx, ast.Load)
+                                                                              for n in ast.walk(e.node)) for e in path.events)
+                if not reads:
+                    bad_path = path
+                    break
+            ctx.require(bad_path is None, f'{qn}: every path that performs {what} also consults {flag}', p.mod, qn, f'{norm(done)}  [without consulting {flag}]',
+                        f'a path performs {what} and never reads {flag}: a literal that qualifies for both simplifications gets only one of them per run, '
+                        f'so formatting the result again changes it ({bad_path.describe() if bad_path else ""})', done,
+                        witness="x = f'''text'''  ->  f'text'  ->  'text'")
     ctx.floor('multiline->plain rewrite sites', n_ml, 1)
     ctx.floor('f-string->plain rewrite sites', n_fs, 1)
 
@@ -976,6 +1040,9 @@ def _sites_of(w: Write, ty: Typer, model: NodeModel, qn: str) -> T.List[Site]:
         return [Site(w.stmt, w.obj, 'value', f'assigns {short(w.value, 40)} to {norm(w.node)}')]
     if w.kind == 'assign' and w.attr in ('whitespaces', 'pre_whitespaces'):
         v = w.value
+        from . import c16_sym as _cs
+        if isinstance(v, ast.Call) and (attr_chain(v.func) or '').split('.')[-1] != 'WhitespaceNode' and _cs.INLINER is not None:
+            v = _cs.INLINER(v) or v                      # a helper that returns a fresh WhitespaceNode
         if not (isinstance(v, ast.Constant) and v.value is None) and not (isinstance(v, ast.Call) and (attr_chain(v.func) or '').split('.')[-1] == 'WhitespaceNode'):
             raise Undecided(f'{qn}: whitespace node replaced by {short(v)} (neither None nor a fresh WhitespaceNode)')
         return [Site(w.stmt, w.node, 'node', f'replaces {norm(w.node)} by {short(v, 30)}')]
@@ -1417,6 +1484,7 @@ def _pass_order(ctx: RuleCtx, first: str, second: str) -> bool:
 
 
 def r3(ctx: RuleCtx) -> None:
+    _read_argnode_len(ctx)
     model = NodeModel(ctx.repo)
     passes = _passes(ctx)
     vis = ctx.repo.module(VIS)
@@ -2064,6 +2132,58 @@ def r6(ctx: RuleCtx) -> None:
     ctx.floor('paths of RawPrinter.visit_StringNode for a plain literal', n, 1)
 
 
+def r7(ctx: RuleCtx) -> None:
+    """Option table: the config-file getter of every option agrees with its declared type (a bool option read with a string
+    getter makes `sort_files = false` a truthy string) and so does its default."""
+    mod = ctx.repo.module(MF)
+    want = {'bool': {'getboolean'}, 'int': {'getint'}, 'str': {'getstr', 'get'}}
+    n = 0
+    for cname, cls in mod.classes().items():
+        if '.' in cname:
+            continue
+        for st in cls.body:
+            if not (isinstance(st, ast.AnnAssign) and isinstance(st.target, ast.Name) and isinstance(st.value, ast.Call)
+                    and (attr_chain(st.value.func) or '').split('.')[-1] == 'field'):
+                continue
+            md = kwarg_of(st.value, 'metadata')
+            if md is None:
+                continue
+            if isinstance(md, ast.Call) and isinstance(md.func, ast.Name) and md.func.id == 'dict' and not md.args:
+                items = {k.arg: k.value for k in md.keywords if k.arg}
+            elif isinstance(md, ast.Dict) and all(isinstance(k, ast.Constant) for k in md.keys):
+                items = {k.value: v for k, v in zip(md.keys, md.values)}        # type: ignore[union-attr]
+            else:
+                raise Undecided(f'{cname}.{st.target.id}: metadata is not a literal table')
+            if 'getter' not in items:
+                continue
+            ann = st.annotation
+            while isinstance(ann, ast.Subscript) and (attr_chain(ann.value) or '').split('.')[-1] == 'Optional':
+                ann = ann.slice
+            head = (attr_chain(ann.value) if isinstance(ann, ast.Subscript) else attr_chain(ann)) or ''
+            head = head.split('.')[-1]
+            kind = {'bool': 'bool', 'int': 'int', 'str': 'str', 'Literal': 'str'}.get(head)
+            if kind is None:
+                continue                   # a union of spellings: read as text and converted by the code that uses it
+            g = attr_chain(items['getter'])
+            if g is None:
+                raise Undecided(f'{cname}.{st.target.id}: getter {short(items["getter"])} is not a method reference')
+            n += 1
+            ctx.require(g.split('.')[-1] in want[kind], f'{cname}.{st.target.id}: {kind} option read with {g.split(".")[-1]}', mod, cname, f'{st.target.id}: getter',
+                        f'option {st.target.id} is declared {kind} but read from the configuration file with {g}: '
+                        + ("any non-empty text, including 'false', is then truthy" if kind == 'bool' else 'the value has the wrong type'), st)
+            d = items.get('default')
+            if isinstance(d, ast.Constant) and d.value is not None:
+                ctx.require(type(d.value).__name__ == kind, f'{cname}.{st.target.id}: default {d.value!r} is a {kind}', mod, cname, f'{st.target.id}: default',
+                            f'option {st.target.id} is declared {kind} but its default is {d.value!r}', st)
+    if n == 0:
+        raise Undecided('no option table with getters found in mformat.py (options are declared in a form the rule does not read)')
+    ctx.note(f'{n} options with a getter')
+
+
+def kwarg_of(call: ast.Call, name: str) -> T.Optional[ast.AST]:
+    return next((k.value for k in call.keywords if k.arg == name), None)
+
+
 def _scoped(fn: T.Callable[[RuleCtx], None]) -> T.Callable[[RuleCtx], None]:
     def run(ctx: RuleCtx) -> None:
         from . import c16_sym
@@ -2081,5 +2201,6 @@ RULES = [
     Rule('C16.R3', 'whitespace content holding a comment is never discarded', _scoped(r3)),
     Rule('C16.R4', 'check mode reports a difference iff the written text would differ', _scoped(r4)),
     Rule('C16.R6', 'the printer emits the undecoded token text of a plain string literal', _scoped(r6)),
+    Rule('C16.R7', 'every option is read from the configuration file with the getter of its declared type', _scoped(r7)),
     Rule('C16.R5', 'files() arguments are sorted after, not before, the argument list is replaced', _scoped(r5)),
 ]
